@@ -48,3 +48,21 @@ def sensitivity(pid: str, repo: str, jobs: int = 16):
         return []
     with ThreadPoolExecutor(max_workers=jobs) as ex:
         return list(ex.map(_one, items))
+
+
+def neutral_run(pid: str, repo: str):
+    """the check must stay silent on a reformatted, locally-renamed (behaviour-preserving) copy of the sources"""
+    from . import neutral
+    d = tempfile.mkdtemp(prefix="pstneu.")
+    try:
+        neutral.make(repo, d)
+        r = subprocess.run([sys.executable, "-m", "pst.check", pid, "--repo", d, "--dry"], cwd=VERIF, capture_output=True,
+                           text=True, timeout=300)
+        first = ""
+        for ln in r.stdout.splitlines():
+            if " rule=" in ln or "ANALYSIS-ERROR" in ln:
+                first = ln.strip()[:200]
+                break
+        return dict(variant="ast.unparse round-trip + every local variable renamed", exit=r.returncode, first=first)
+    finally:
+        shutil.rmtree(d, ignore_errors=True)
